@@ -120,7 +120,7 @@ def behaviour_to_schedule(beh, mr, mid0=100, tok0=50):
         elif e0["k"] == "rx":
             s = {"at": t, "do": "rx", "r": e0["r"], "ty": e0["ty"], "mid": midref(e0["mid"])}
             if e0["cls"] == "resp":
-                s["tok"] = {"of": e0["q"]}
+                s["tok"] = {"of": e0["q"]} if e0["q"] else "dead"
                 s["code"] = 69
         elif e0["k"] == "err":
             s = {"at": t, "do": "err", "r": e0["r"]}
@@ -216,6 +216,9 @@ TUNINGS = [
     {"ACK_TIMEOUT": 4.0, "ACK_RANDOM_FACTOR": 2.0, "MAX_RETRANSMIT": 1},
     {"ACK_TIMEOUT": 0.5, "ACK_RANDOM_FACTOR": 1.5, "MAX_RETRANSMIT": 6},
     {"ACK_TIMEOUT": 3.0, "ACK_RANDOM_FACTOR": 1.25, "MAX_RETRANSMIT": 3},
+    # long timers: gaps beyond MAX_LATENCY / EXCHANGE_LIFETIME-sized values must still double
+    {"ACK_TIMEOUT": 20.0, "ACK_RANDOM_FACTOR": 1.5, "MAX_RETRANSMIT": 4},
+    {"ACK_TIMEOUT": 60.0, "ACK_RANDOM_FACTOR": 1.0, "MAX_RETRANSMIT": 3},
 ]
 
 
@@ -245,7 +248,7 @@ def random_schedule(rng, tuning, emphasis):
         steps.append({"at": t, "do": "submit", "q": q, "r": r, "con": con, "f": f})
         ito = c["ATmin"] + int((c["ATmax"] - c["ATmin"]) * f)
         maxcopy = 1 + tuning["MAX_RETRANSMIT"]
-        fate = rng.choice(["ack", "ack", "rst", "piggy", "sep", "respnoack", "silent", "foreign", "ackdup"])
+        fate = rng.choice(["ack", "ack", "rst", "piggy", "sep", "respnoack", "silent", "foreign", "ackdup", "piggywrongtok"])
         if not con:
             fate = rng.choice(["nonresp", "silent", "conresp"])
         k = rng.randint(1, maxcopy)
@@ -264,6 +267,11 @@ def random_schedule(rng, tuning, emphasis):
             triggers.append(
                 {"on": on, "delay": delay, "rx": {"r": r, "ty": "ACK", "mid": {"of": q}, "tok": {"of": q}, "code": 69, "f": f2}}
             )
+        elif fate == "piggywrongtok":
+            # an ACK under the exchange's message ID that carries a response with a token of no request (or of
+            # another one): it acknowledges the message all the same (the statement speaks of the message ID)
+            wrong = {"of": rng.randint(1, q - 1)} if q > 1 and rng.random() < 0.5 else "%04x" % rng.randint(0, 65535)
+            triggers.append({"on": on, "delay": delay, "rx": {"r": r, "ty": "ACK", "mid": {"of": q}, "tok": wrong, "code": 69, "f": f2}})
         elif fate == "sep":
             triggers.append({"on": on, "delay": delay, "rx": {"r": r, "ty": "ACK", "mid": {"of": q}, "f": f2}})
             triggers.append(
